@@ -316,6 +316,73 @@ Section Maps.
         | Some (l', b) => option_map (cons (b, l')) (s_run l' rest)
         end
     end.
+  (* ------------------------------------------------------------------ several bindings at once
+     A program holds many maps: `v3 = v1 + v2`, `v4 = v1[0:5]`, `v5 = v1; v5[k] = x` ... Maps are values: an
+     operation makes a new map and no map held elsewhere may change.  [bstep] appends the new binding to the
+     store of all bindings made so far (binding i is the i-th element); [brun] returns, after every operation,
+     the content of EVERY binding - what a program re-reading all its variables sees.
+     GoPanic: a binding index that does not exist, a range out of bounds, or rest of a map of at most one pair
+     (the new binding would be nil, not a map): outside this little language, the reference says None there. *)
+  Inductive bop : Type :=
+  | BLit (ps : list pair)                 (* vN = { ps } *)
+  | BSet (i : nat) (k : K) (v : V)        (* vN = v_i ; vN[k] = v *)
+  | BDel (i : nat) (k : K)                (* vN = v_i ; del(vN[k]) *)
+  | BAppend (i j : nat)                   (* vN = v_i + v_j *)
+  | BRest (i : nat)                       (* vN = rest(v_i) *)
+  | BRange (i lo hi : nat).               (* vN = v_i[lo:hi] *)
+
+  Definition with_binding {A} (st : list gmap) (i : nat) (f : gmap -> outcome A) : outcome A :=
+    match nth_error st i with Some m => f m | None => GoPanic end.
+
+  Definition bnew (st : list gmap) (o : bop) : outcome gmap :=
+    match o with
+    | BLit ps => mliteral ps
+    | BSet i k v => with_binding st i (fun m => mset m k v)
+    | BDel i k => with_binding st i (fun m => omap fst (mdelete m k))
+    | BAppend i j => with_binding st i (fun m => with_binding st j (fun r => mappend m r))
+    | BRest i => with_binding st i (fun m => match mrest m with Some m' => Val m' | None => GoPanic end)
+    | BRange i lo hi => with_binding st i (fun m => mrange m lo hi)
+    end.
+
+  Definition bstep (st : list gmap) (o : bop) : outcome (list gmap) :=
+    omap (fun m => st ++ [m]) (bnew st o).
+
+  Fixpoint brun (st : list gmap) (ops : list bop) : outcome (list (list (list pair))) :=
+    match ops with
+    | [] => Val []
+    | o :: rest =>
+        match bstep st o with
+        | GoPanic => GoPanic
+        | Val st' => omap (cons (map elems st')) (brun st' rest)
+        end
+    end.
+
+  (* the same on the reference: a store of association lists *)
+  Definition s_with {A} (st : list (list pair)) (i : nat) (f : list pair -> option A) : option A :=
+    match nth_error st i with Some l => f l | None => None end.
+
+  Definition s_bnew (st : list (list pair)) (o : bop) : option (list pair) :=
+    match o with
+    | BLit ps => Some (s_set_all [] ps)
+    | BSet i k v => s_with st i (fun l => Some (s_set l k v))
+    | BDel i k => s_with st i (fun l => Some (s_del l k))
+    | BAppend i j => s_with st i (fun l => s_with st j (fun r => Some (s_set_all l r)))
+    | BRest i => s_with st i s_rest
+    | BRange i lo hi => s_with st i (fun l => s_range l lo hi)
+    end.
+
+  Definition s_bstep (st : list (list pair)) (o : bop) : option (list (list pair)) :=
+    option_map (fun l => st ++ [l]) (s_bnew st o).
+
+  Fixpoint s_brun (st : list (list pair)) (ops : list bop) : option (list (list (list pair))) :=
+    match ops with
+    | [] => Some []
+    | o :: rest =>
+        match s_bstep st o with
+        | None => None
+        | Some st' => option_map (cons st') (s_brun st' rest)
+        end
+    end.
 End Maps.
 
 Arguments Small {K V} l.
